@@ -18,18 +18,18 @@ var ErrBadPattern = filepath.ErrBadPattern
 
 type WalkFunc = filepath.WalkFunc
 
-func Join(elem ...string) string          { return filepath.Join(elem...) }
-func Base(p string) string                { return filepath.Base(p) }
-func Dir(p string) string                 { return filepath.Dir(p) }
-func Ext(p string) string                 { return filepath.Ext(p) }
-func Clean(p string) string               { return filepath.Clean(p) }
-func IsAbs(p string) bool                 { return filepath.IsAbs(p) }
-func Split(p string) (string, string)     { return filepath.Split(p) }
-func Rel(b, t string) (string, error)     { return filepath.Rel(b, t) }
-func Match(pat, n string) (bool, error)   { return filepath.Match(pat, n) }
-func ToSlash(p string) string             { return p }
-func FromSlash(p string) string           { return p }
-func VolumeName(p string) string          { return "" }
+func Join(elem ...string) string        { return filepath.Join(elem...) }
+func Base(p string) string              { return filepath.Base(p) }
+func Dir(p string) string               { return filepath.Dir(p) }
+func Ext(p string) string               { return filepath.Ext(p) }
+func Clean(p string) string             { return filepath.Clean(p) }
+func IsAbs(p string) bool               { return filepath.IsAbs(p) }
+func Split(p string) (string, string)   { return filepath.Split(p) }
+func Rel(b, t string) (string, error)   { return filepath.Rel(b, t) }
+func Match(pat, n string) (bool, error) { return filepath.Match(pat, n) }
+func ToSlash(p string) string           { return p }
+func FromSlash(p string) string         { return p }
+func VolumeName(p string) string        { return "" }
 func Abs(p string) (string, error) {
 	if strings.HasPrefix(p, "/") {
 		return filepath.Clean(p), nil
